@@ -13,6 +13,10 @@
 //!   @ autodiff <seed>                             Record / Trace expressions: values, derivatives,
 //!                                                 tape positions
 //!   @ display <seed>                              Display / Debug of tensors, views, matrices, errors
+//!   @ messages <seed>                             the TEXT of panic messages and of `Display`ed error
+//!                                                 values of invalid calls (several unknown / repeated
+//!                                                 names, bad shapes, records of two different
+//!                                                 WengertLists collected into one container, …)
 //!   @ names <store> <seed>                        name lookups, reordering, selection and Display on
 //!                                                 a tensor whose dimension names `rows`, `row`, `r`
 //!                                                 are stored as literals | leaked heap copies |
@@ -24,12 +28,12 @@
 //! "previously executed unrelated library calls".
 
 use crate::util::*;
-use easy_ml::differentiation::{Record, Trace, WengertList};
+use easy_ml::differentiation::{Record, RecordMatrix, RecordTensor, Trace, WengertList};
 use easy_ml::distributions::Gaussian;
 use easy_ml::linear_algebra;
 use easy_ml::matrices::Matrix;
 use easy_ml::numeric::extra::{Cos, Exp, Ln, Sin, Sqrt};
-use easy_ml::tensors::views::TensorView;
+use easy_ml::tensors::views::{IndexRange, TensorChain, TensorRange, TensorView};
 use easy_ml::tensors::Tensor;
 
 fn hex(x: f64) -> String {
@@ -234,6 +238,62 @@ fn display(seed: u64) -> String {
     esc(&parts.join(" ¦ "))
 }
 
+/// the message a call panics with (`-` if it returns)
+fn panic_message<R>(f: impl FnOnce() -> R) -> String {
+    match std::panic::catch_unwind(std::panic::AssertUnwindSafe(f)) {
+        Ok(_) => "-".into(),
+        Err(payload) => {
+            if let Some(s) = payload.downcast_ref::<&str>() {
+                (*s).to_string()
+            } else if let Some(s) = payload.downcast_ref::<String>() {
+                s.clone()
+            } else {
+                "?".into()
+            }
+        }
+    }
+}
+
+fn messages(seed: u64) -> String {
+    let mut rng = Rng::new(seed);
+    let t = Tensor::from([("a", 2), ("b", 3), ("c", 2)], (0..12).map(|i| i as f64).collect());
+    let m = Matrix::from_flat_row_major((2, 3), (0..6).map(|i| i as f64).collect());
+    // unknown / repeated names in a pseudo-random but seed-determined order
+    let mut unknown = vec!["zz", "yy", "ww", "vv", "uu"];
+    rng.shuffle(&mut unknown);
+    let (l1, l2) = (WengertList::new(), WengertList::new());
+    let (l3, l4) = (Box::new(WengertList::new()), Box::new(WengertList::new()));
+    let mixed = |a: &'_ WengertList<f64>, b: &'_ WengertList<f64>| -> String {
+        let records = vec![Record::variable(1.0, a), Record::variable(2.0, b), Record::constant(3.0), Record::variable(4.0, a)];
+        let e1 = RecordTensor::from_iter([("x", 4)], records.clone()).err().map(|e| e.to_string());
+        let e2 = RecordMatrix::from_iter((2, 2), records).err().map(|e| e.to_string());
+        format!("{:?} ¦ {:?}", e1, e2)
+    };
+    let parts = vec![
+        panic_message(|| t.reverse(&[unknown[0], unknown[1], unknown[2]])),
+        panic_message(|| t.reverse(&["a", unknown[3], "b", unknown[4]])),
+        panic_message(|| t.reverse(&["a", "a"])),
+        panic_message(|| t.index_by([unknown[0], "a", unknown[1]])),
+        panic_message(|| t.transpose(["c", "c", "a"])),
+        panic_message(|| t.select([(unknown[2], 0)])),
+        panic_message(|| t.select([("a", 7)])),
+        panic_message(|| Tensor::from([("a", 2), ("a", 2)], vec![0.0; 4])),
+        panic_message(|| Tensor::from([("a", 2), ("b", 2)], vec![0.0; 5])),
+        panic_message(|| t.rename_view(["q", "q", "r"])),
+        panic_message(|| m.get(5, 1)),
+        panic_message(|| m.row_iter(9).count()),
+        panic_message(|| Matrix::from_flat_row_major((2, 2), vec![0.0; 3])),
+        panic_message(|| TensorChain::<f64, (_, _), 3>::from((&t, &t), unknown[0])),
+        format!("{:?}", TensorRange::from(&t, [(unknown[1], IndexRange::new(0, 1))]).err().map(|e| e.to_string())),
+        format!("{:?}", TensorRange::from_strict(&t, [("a", IndexRange::new(1, 5))]).err().map(|e| e.to_string())),
+        format!("{:?}", Tensor::<f64, 2>::try_from([("x", 0), ("y", 2)], vec![]).err().map(|e| e.to_string())),
+        mixed(&l1, &l2),
+        mixed(&l4, &l3),
+        mixed(&l2, &l4),
+    ];
+    esc(&parts.join(" ¦ "))
+}
+
 /// the three dimension names `rows`, `row`, `r` in three storage layouts
 fn stored_names(store: &str) -> [&'static str; 3] {
     static TABLE: &str = "rows";
@@ -300,6 +360,7 @@ impl Runner {
             "gaussian" => gaussian(num(2) as u64),
             "autodiff" => autodiff(num(2) as u64),
             "display" => display(num(2) as u64),
+            "messages" => messages(num(2) as u64),
             "names" => names(toks[2], num(3) as u64),
             _ => "bad-op".into(),
         });
@@ -355,6 +416,9 @@ pub fn gen(g: &mut Gen) {
         let seed = g.rng.next() % 1_000_000;
         g.count("display");
         g.op(format!("@ display {}", seed));
+        let seed = g.rng.next() % 1_000_000;
+        g.count("messages");
+        g.op(format!("@ messages {}", seed));
     }
     for _ in 0..reps * 3 {
         let seed = g.rng.next() % 1_000_000;
